@@ -9,8 +9,9 @@
      apply_seq sch d bs    the batches bs executed one after the other
      commutes sch d bs     the merged batch (concat bs) has the same effect on d as apply_seq
      synced sch m          private = public, both queues empty, n_tries = 0
-     run_hist sch m [] h   the manager after the process_queued_ops calls h = [(batch, public fault)]
-                           (private writes succeed), with the batches still outstanding for public *)
+     run_hist sch max m [] h   the manager after the history h of HProc batch public-fault
+                           (process_queued_ops, private write succeeds) and HHealth
+                           (recover_pub_from_pri) events, with the batches still outstanding for public *)
 From Coq Require Import List Bool Arith ZArith Lia.
 From Cylc Require Import Base.Util Model.Db Proofs.DbProofs.
 Import ListNotations.
@@ -47,8 +48,8 @@ Qed.
    batches merged, n_tries is their number, a failed public write changes
    nothing but n_tries, and the next public write that goes through applies the
    retained items together with the new ones and resets n_tries. *)
-Theorem c21_public_retry : forall sch m0 h m pend,
-  synced sch m0 -> run_hist sch m0 [] h = (m, pend) ->
+Theorem c21_public_retry : forall sch max m0 h m pend,
+  synced sch m0 -> run_hist sch max m0 [] h = (m, pend) ->
   d_q (m_pub m) = enq_all sch (qempty sch) (concat pend) /\
   d_tries (m_pub m) = length pend /\
   forall b f m' o, process sch b None f m = (m', o) ->
@@ -66,7 +67,7 @@ Proof. exact hist_retry. Qed.
 (* The property as written: whenever no public write is outstanding, the
    public database equals the private one. *)
 Definition c21_public_converges : Prop :=
-  forall sch m0 h m, synced sch m0 -> run_hist sch m0 [] h = (m, []) ->
+  forall sch max m0 h m, synced sch m0 -> run_hist sch max m0 [] h = (m, []) ->
     d_db (m_pub m) = d_db (m_pri m).
 
 (* It is FALSE of the faithful model (and of the code: corpus case
@@ -76,17 +77,18 @@ Definition c21_public_converges : Prop :=
    the public DB and n_tries is back to 0. *)
 Definition c21_w_sch : schema := [(2, [0])].
 Definition c21_w_hist : hist :=
-  [([OInsD 0 [(0, Some 1%Z); (1, Some 5%Z)]], Some (0, 0));
-   ([ODel 0 [(0, Some 1%Z)]], None)].
+  [HProc [OInsD 0 [(0, Some 1%Z); (1, Some 5%Z)]] (Some (0, 0));
+   HHealth;
+   HProc [ODel 0 [(0, Some 1%Z)]] None].
 
 Theorem c21_public_converges_refuted : ~ c21_public_converges.
 Proof.
   intros H.
-  specialize (H c21_w_sch (init_mgr c21_w_sch) c21_w_hist
-                (fst (run_hist c21_w_sch (init_mgr c21_w_sch) [] c21_w_hist))).
+  specialize (H c21_w_sch 100 (init_mgr c21_w_sch) c21_w_hist
+                (fst (run_hist c21_w_sch 100 (init_mgr c21_w_sch) [] c21_w_hist))).
   assert (S : synced c21_w_sch (init_mgr c21_w_sch)) by (repeat split).
-  assert (R : run_hist c21_w_sch (init_mgr c21_w_sch) [] c21_w_hist =
-              (fst (run_hist c21_w_sch (init_mgr c21_w_sch) [] c21_w_hist), []))
+  assert (R : run_hist c21_w_sch 100 (init_mgr c21_w_sch) [] c21_w_hist =
+              (fst (run_hist c21_w_sch 100 (init_mgr c21_w_sch) [] c21_w_hist), []))
     by (vm_compute; reflexivity).
   specialize (H S R). vm_compute in H. discriminate.
 Qed.
@@ -94,10 +96,11 @@ Qed.
 (* What holds instead: along histories in which every public write that went
    through had a commuting merged batch, private = public + outstanding
    batches; in particular they are equal whenever nothing is outstanding.
-   (So reordering inside the merged batch is the ONLY way to diverge below the
-   recovery threshold: nothing is lost, duplicated or applied early.) *)
-Theorem c21_public_converges_if_commuting : forall sch m0 h m pend,
-  synced sch m0 -> commuting_hist sch m0 [] h -> run_hist sch m0 [] h = (m, pend) ->
+   Histories include the health check at any point, for any MAX_TRIES, so this
+   holds across recoveries.  (Reordering inside the merged batch is the ONLY
+   way to diverge: nothing is lost, duplicated or applied early.) *)
+Theorem c21_public_converges_if_commuting : forall sch max m0 h m pend,
+  synced sch m0 -> commuting_hist sch max m0 [] h -> run_hist sch max m0 [] h = (m, pend) ->
   d_db (m_pri m) = apply_seq sch (d_db (m_pub m)) pend.
 Proof. exact hist_converges_synced. Qed.
 
@@ -111,70 +114,43 @@ Theorem c21_commuting_if_order_preserved : forall sch d bs,
 Proof. exact order_preserved_commutes. Qed.
 
 (* ---- recovery at MAX_TRIES ---- *)
-(* After max consecutive failed public writes recover_pub_from_pri makes the
-   public database equal to the private one and resets n_tries; below the
-   threshold it does nothing. *)
+(* After max consecutive failed public writes recover_pub_from_pri
+   re-synchronises: public = private, both queues empty (the retained public
+   queue is dropped: fix fc5ba1e), n_tries = 0; the private side is untouched.
+   Below the threshold it does nothing. *)
 Theorem c21_converges_after_recover : forall sch max m0 h m pend,
-  synced sch m0 -> run_hist sch m0 [] h = (m, pend) -> max <= length pend ->
-  d_db (m_pub (health max m)) = d_db (m_pri (health max m)) /\
-  m_pri (health max m) = m_pri m /\ d_tries (m_pub (health max m)) = 0.
+  synced sch m0 -> run_hist sch max m0 [] h = (m, pend) -> max <= length pend ->
+  synced sch (health max m) /\ m_pri (health max m) = m_pri m.
 Proof. exact hist_recover. Qed.
 
 Theorem c21_no_recover_below_threshold : forall max m,
   d_tries (m_pub m) < max -> health max m = m.
 Proof. exact health_below. Qed.
 
-(* ... but the recovery keeps the public DAO's retained queue, so the next
-   public write replays it on top of the copy: convergence after a recovery is
-   FALSE (corpus case "witness-stale-replay"): a table without primary key, one
-   insert outstanding while the public write fails max=1 times; recovery copies
-   the row, the next write inserts it again. *)
-Definition c21_recovered_write_converges : Prop :=
-  forall sch max m0 h m pend b m' o,
-    synced sch m0 -> run_hist sch m0 [] h = (m, pend) -> max <= length pend ->
-    process sch b None None (health max m) = (m', o) ->
-    d_db (m_pub m') = d_db (m_pri m').
-
-Definition c21_w2_sch : schema := [(2, [])].
-Definition c21_w2_hist : hist := [([OInsL 0 [Some 7%Z; Some 8%Z]], Some (0, 0))].
-
-Theorem c21_recovered_write_converges_refuted : ~ c21_recovered_write_converges.
+(* ... and the write after a recovery converges (before fix fc5ba1e this was
+   refuted: the stale public queue was replayed on top of the copy; the witness
+   is kept as corpus case "witness-stale-replay"). *)
+Theorem c21_recovered_write_converges : forall sch max m0 h m pend b m' o,
+  synced sch m0 -> run_hist sch max m0 [] h = (m, pend) -> max <= length pend ->
+  process sch b None None (health max m) = (m', o) ->
+  d_db (m_pub m') = d_db (m_pri m').
 Proof.
-  intros H.
-  pose (m := fst (run_hist c21_w2_sch (init_mgr c21_w2_sch) [] c21_w2_hist)).
-  specialize (H c21_w2_sch 1 (init_mgr c21_w2_sch) c21_w2_hist m
-                [[OInsL 0 [Some 7%Z; Some 8%Z]]] []
-                (fst (process c21_w2_sch [] None None (health 1 m)))
-                (snd (process c21_w2_sch [] None None (health 1 m)))).
-  assert (S : synced c21_w2_sch (init_mgr c21_w2_sch)) by (repeat split).
-  assert (R : run_hist c21_w2_sch (init_mgr c21_w2_sch) [] c21_w2_hist =
-              (m, [[OInsL 0 [Some 7%Z; Some 8%Z]]])) by (vm_compute; reflexivity).
-  specialize (H S R (le_n 1) (surjective_pairing _)). vm_compute in H. discriminate.
-Qed.
-
-(* The proposed fix (recover_pub_from_pri also clears the public DAO's queues,
-   [health_fixed]) re-establishes [synced], so that
-   c21_public_converges_if_commuting applies again after every recovery. *)
-Theorem c21_recover_fixed_resyncs : forall sch max m0 h m pend,
-  synced sch m0 -> run_hist sch m0 [] h = (m, pend) -> max <= length pend ->
-  synced sch (health_fixed max m).
-Proof.
-  intros sch max m0 h m pend Hs Hr Hl.
-  pose proof (hist_qinv _ _ _ _ _ _ (synced_qinv _ _ Hs) Hr) as Hq.
-  pose proof (hist_tries _ _ _ _ _ _ (synced_qinv _ _ Hs) (synced_tinv _ _ Hs) Hr) as [Ht _].
-  eapply health_fixed_synced; eauto. lia.
+  intros sch max m0 h m pend b m' o Hs Hr Hl Hp.
+  destruct (hist_recover sch max m0 h m pend Hs Hr Hl) as [Hsy _].
+  exact (recovered_write sch _ b m' o Hsy Hp).
 Qed.
 
 (* ---- non-vacuity ---- *)
 (* a history with a failed public write whose merged retry commutes:
    insert (1,5) [public locked], then insert (2,6) and update key 1 *)
 Definition c21_ex_hist : hist :=
-  [([OInsD 0 [(0, Some 1%Z); (1, Some 5%Z)]], Some (0, 0));
-   ([OInsD 0 [(0, Some 2%Z); (1, Some 6%Z)]; OUpd 0 [(1, Some 9%Z)] [(0, Some 1%Z)]], Some (5, 0))].
-Example c21_ex_commuting : commuting_hist c21_w_sch (init_mgr c21_w_sch) [] c21_ex_hist.
+  [HProc [OInsD 0 [(0, Some 1%Z); (1, Some 5%Z)]] (Some (0, 0));
+   HHealth;
+   HProc [OInsD 0 [(0, Some 2%Z); (1, Some 6%Z)]; OUpd 0 [(1, Some 9%Z)] [(0, Some 1%Z)]] (Some (5, 0))].
+Example c21_ex_commuting : commuting_hist c21_w_sch 3 (init_mgr c21_w_sch) [] c21_ex_hist.
 Proof. vm_compute. repeat split. Qed.
 Example c21_ex_result :
-  let '(m, pend) := run_hist c21_w_sch (init_mgr c21_w_sch) [] c21_ex_hist in
+  let '(m, pend) := run_hist c21_w_sch 3 (init_mgr c21_w_sch) [] c21_ex_hist in
   pend = [] /\ d_db (m_pub m) = [[[Some 1%Z; Some 9%Z]; [Some 2%Z; Some 6%Z]]]
   /\ d_db (m_pri m) = d_db (m_pub m).
 Proof. vm_compute. repeat split. Qed.
@@ -187,3 +163,10 @@ Proof. intros t Ht. destruct t; [vm_compute; reflexivity|lia]. Qed.
 Example c21_ex_fault :
   snd (process c21_w_sch [OInsD 0 [(0, Some 1%Z); (1, Some 5%Z)]] (Some (1, 0)) None (init_mgr c21_w_sch)) = ORaised.
 Proof. vm_compute. reflexivity. Qed.
+(* the former stale-replay witness now converges: one insert outstanding, the
+   public write fails once, MAX_TRIES = 1, recovery, then an empty write *)
+Example c21_ex_recovery :
+  let '(m, pend) := run_hist [(2, [])] 1 (init_mgr [(2, [])]) []
+                      [HProc [OInsL 0 [Some 7%Z; Some 8%Z]] (Some (0, 0)); HHealth; HProc [] None] in
+  pend = [] /\ d_db (m_pub m) = [[[Some 7%Z; Some 8%Z]]] /\ d_db (m_pri m) = d_db (m_pub m).
+Proof. vm_compute. repeat split. Qed.
